@@ -22,8 +22,8 @@ RULE = ("baseline dilation scenarios (dilate at a random point, subchannel traff
         "connection, no timer. Non-trivial = close was issued while a Manager existed; distinct = "
         "(Manager state, Connector state, closer, role, scenario) at the moment of close.")
 ASSUMPTIONS = ["Noise stand-in", "bounded progress: 300 virtual seconds after close()"]
-FLOORS = {"quick": {"closes_with_manager": 500, "old_peer_cases": 40, "closes_after_bulk_write": 40, "closes_with_peer_paused": 15, "late_dilate_cases": 30},
-          "thorough": {"closes_with_manager": 20000, "old_peer_cases": 1500, "closes_after_bulk_write": 2000, "closes_with_peer_paused": 400, "late_dilate_cases": 1000}}
+FLOORS = {"quick": {"closes_with_manager": 500, "old_peer_cases": 40, "closes_after_bulk_write": 40, "closes_with_peer_paused": 15, "late_dilate_cases": 30, "closes_with_a_running_producer_on_a_saturated_link": 4},
+          "thorough": {"closes_with_manager": 20000, "old_peer_cases": 1500, "closes_after_bulk_write": 2000, "closes_with_peer_paused": 400, "late_dilate_cases": 1000, "closes_with_a_running_producer_on_a_saturated_link": 100}}
 
 
 def cases(tier, seed, prep=None):
@@ -52,6 +52,11 @@ def cases(tier, seed, prep=None):
     for i in range(24 if q else 600):
         out.append({"kind": "sweep", "seed": b + 400 + i, "close_at": 300 + (i * 7) % 200, "who": "AB"[i % 2], "stranger": False, "dead_addr": False,
                     "bulk": [1000000, 3000000][i % 2], "peer_paused": True})
+    # ... and while a streaming producer of the closing application is running and is faster than the link: nothing may keep
+    # feeding a connection that is being closed
+    for i in range(30 if q else 900):
+        out.append({"kind": "sweep", "seed": b + 600 + i, "close_at": 300 + (i * 7) % 200, "who": "AB"[i % 2], "stranger": False, "dead_addr": False,
+                    "streaming": True})
     for i in range(40 if q else 1200):
         out.append({"kind": "late-dilate", "seed": b + 9000 + i, "when": ["closing", "closed"][i % 2], "peer_dilates": i % 4 < 3})
     for i in range(60 if q else 2000):
@@ -242,8 +247,106 @@ def run_case(spec):
     if who == "follower":
         who = "A"       # decided when close() is issued (roles are not known before the key exchange)
 
+    stream = {"prod": None, "ticks": 0, "unpaused_at_close": None}
+    if spec.get("streaming"):
+        from zope.interface import implementer
+        from twisted.internet.interfaces import IPushProducer
+        from ..simnet import unwrap as _unwrap
+
+        @implementer(IPushProducer)
+        class TimerProducer:
+            """writes 32 KiB every millisecond until it is told to pause (or its subchannel is gone)"""
+
+            def __init__(self, p_):
+                self.p, self.paused, self.stopped = p_, False, False
+                r.callLater(0.001, self.tick)
+
+            def tick(self):
+                if self.stopped or "lost" in [e[0] for e in self.p.events] or stream["ticks"] > 20000:
+                    return
+                if not self.paused:
+                    stream["ticks"] += 1
+                    try:
+                        self.p.transport.write(b"s" * 32768)
+                    except Exception:
+                        return
+                r.callLater(0.001, self.tick)
+
+            def pauseProducing(self):
+                self.paused = True
+
+            def resumeProducing(self):
+                self.paused = False
+
+            def stopProducing(self):
+                self.stopped = True
+        quota = {"n": 1}
+
+        def grant():
+            quota["n"] = 1
+            r.callLater(0.02, grant)
+        r.callLater(0.02, grant)
+
+        def slow_link(a):
+            # one delivery per 20 ms of virtual time on the peer connection, in either direction
+            if a[0] == "data" and a[2][2].link in dp.l2_links():
+                if quota["n"] <= 0:
+                    return False
+            return True
+        sch.filter = slow_link
+        base_step_hook = []
+
+        def count_deliveries():
+            tot = sum(e.rx_total for l in dp.l2_links() for e in l.ends)
+            if tot != quota.get("seen"):
+                quota["seen"] = tot
+                quota["n"] -= 1
+
+        def start_stream():
+            side_ = spec["who"] if spec["who"] in "AB" else "A"
+            mine = [p for p in drv.protos(side_) if drv.is_open(p)]
+            if mine and stream["prod"] is None:
+                stream["prod"] = TimerProducer(mine[0])
+                mine[0].transport.registerProducer(stream["prod"], True)
+            elif not mine and dp.both_connected() and not stream.get("opened"):
+                stream["opened"] = True
+                oth_ = "B" if side_ == "A" else "A"
+                if "stream" not in drv.factories[oth_]:
+                    drv.listen(oth_, "stream")
+                drv.open(side_, "stream")
+            if stream["prod"] is None and world.step < spec["close_at"] - 20:
+                sch.faults.append((world.step + 10, start_stream, "start streaming (retry)"))
+                sch.faults.sort(key=lambda f: f[0])
+        sch.faults.append((max(20, spec["close_at"] - 250), start_stream, "start streaming"))
+
+        def saturated_close():
+            # close() at a moment when the link is saturated (the kernel takes no more) while the producer is running
+            count_deliveries()
+            side_ = spec["who"] if spec["who"] in "AB" else "A"
+            if stream["prod"] is None or stream["prod"].paused or side_ in closing or stream.get("sat_close"):
+                return
+            m_ = dp.manager(side_)
+            tr_ = getattr(getattr(m_, "_connection", None), "transport", None)
+            if tr_ is None or dp.mstate(side_) != "CONNECTED":
+                return
+            if 0 < len(tr_.outbuf) < 60000 and len(tr_.out.wire) >= r.wire_capacity - 2000:
+                stream["sat_close"] = True
+                do_close()
+        sch.hook = saturated_close
+
     def do_close():
         nonlocal who, app
+        if stream["prod"] is not None:
+            stream["unpaused_at_close"] = not stream["prod"].paused
+            stream["t_close"] = r.seconds()
+            prev_hook = sch.hook
+
+            def watch_closed():
+                if prev_hook is not None:
+                    prev_hook()
+                if "t_closed" not in stream and dp.apps[who].closed:
+                    stream["t_closed"] = r.seconds()
+            sch.hook = watch_closed
         if spec["who"] == "follower" and dp.leader() is not None:
             who = "B" if dp.leader() == "A" else "A"
             app = dp.apps[who]
@@ -284,7 +387,16 @@ def run_case(spec):
     if who not in closing:
         do_close()
     app = dp.apps[who]
+    ticks0 = stream["ticks"]
     end = sch.drain(300.0, 30000, until=lambda: app.closed)
+    if end == "steps" and stream["prod"] is not None and not stream["prod"].paused and not app.closed and dp.mstate(who) == "STOPPING" \
+            and stream["ticks"] - ticks0 > 1000:
+        # not a question of patience: for thousands of its turns the application's producer has kept writing into the
+        # connection that close() is waiting to flush - nobody told it to stop
+        world.finish()
+        return {"violations": [{"key": "C17/close-never-completes/producer-keeps-feeding-the-connection-being-closed",
+                                "msg": "%s: close() with the Manager CONNECTED and a streaming producer running on a saturated link; %d producer turns later the Manager is still STOPPING and the producer was never paused" % (who, stream["ticks"] - ticks0),
+                                "witness": {"spec": spec, "at_close": info}}], "nontrivial": None, "counters": {}}
     if end == "steps":
         # the step cap, not the virtual-time bound, ended the drain: no verdict on this case
         world.finish()
@@ -342,7 +454,7 @@ def run_case(spec):
                 viol.append({"key": "C17/leak/%s/%s/%s" % (kind, direction, state), "msg": "%s (closing second) still owns %s %s (%s, %s)" % (other, kind, what, direction, state),
                              "witness": wit()})
     if app.closed and dp.apps[other].closed:
-        left = [c for c in r.getDelayedCalls()]
+        left = [c for c in r.getDelayedCalls() if getattr(c.func, "__qualname__", "").split(".")[-1] not in ("grant", "tick")]     # (the harness' own)
         if left:
             names = sorted({getattr(c.func, "__qualname__", repr(c.func))[:60] for c in left})
             viol.append({"key": "C17/timer-left/" + names[0], "msg": "both wormholes closed, timers still pending: %s" % names, "witness": wit()})
@@ -350,7 +462,7 @@ def run_case(spec):
     had_manager = info.get("manager_state") is not None
     nontrivial = [info.get("manager_state"), info.get("connector_state"), who, info.get("role"), bool(spec.get("stranger")), spec["seed"]] if had_manager else None
     return {"violations": viol, "nontrivial": nontrivial,
-            "counters": {"closes_with_manager": int(had_manager), "closes_after_bulk_write": int(bool(info.get("bulk_written"))), "closes_with_peer_paused": int(bool(info.get("peer_paused") and info.get("bulk_written"))), "closed": int(app.closed), "stranger_connected": int(stranger["proto"] is not None),
+            "counters": {"closes_with_manager": int(had_manager), "closes_after_bulk_write": int(bool(info.get("bulk_written"))), "closes_with_peer_paused": int(bool(info.get("peer_paused") and info.get("bulk_written"))), "closed": int(app.closed), "slowest_close_with_a_running_producer_ms": int(1000 * (stream.get("t_closed", stream.get("t_close", 0)) - stream.get("t_close", 0))) if stream["unpaused_at_close"] else 0, "closes_with_a_running_producer_on_a_slow_link": int(bool(stream["unpaused_at_close"]) and info.get("manager_state") == "CONNECTED"), "closes_with_a_running_producer_on_a_saturated_link": int(bool(stream.get("sat_close"))), "closes_with_a_paused_producer_on_a_slow_link": int(stream["unpaused_at_close"] is False), "stranger_connected": int(stranger["proto"] is not None),
                          "notrans_seen": len(MON.notrans)},
             "sets": {"states_at_close": ["%s/%s" % (info.get("manager_state"), info.get("connector_state"))],
                      "dilation_notrans": ["%s.%s/%s" % k for k in set(MON.notrans)],
